@@ -7,6 +7,7 @@ import itertools
 import json
 import math
 import random
+import sys
 import threading
 import warnings
 
@@ -23,25 +24,39 @@ from pams.utils.json_extends import json_extends  # noqa: E402
 from pams.utils.json_random import JsonRandom  # noqa: E402
 
 
-def _call_with_timeout(fn, seconds=5.0):
-    box = {}
+class _Hang(BaseException):
+    pass
 
-    def run():
-        try:
-            box["r"] = ("ok", fn())
-        except ValueError as ex:
-            box["r"] = ("ValueError", str(ex))
-        except Exception as ex:  # noqa: BLE001
-            box["r"] = ("other-" + type(ex).__name__, str(ex))
-    th = threading.Thread(target=run, daemon=True)
-    th.start()
-    th.join(seconds)
-    if th.is_alive():
+
+def _call_with_timeout(fn, seconds=5.0, limit=300_000):
+    """Runs fn under a budget of executed lines (sys.settrace): a call that does not terminate is cut off deterministically
+    and reported as "hang" - no wall clock, no thread left spinning behind."""
+    count = [0]
+
+    def tracer(frame, event, arg):
+        count[0] += 1
+        if count[0] > limit:
+            raise _Hang()
+        return tracer
+    old = sys.gettrace()
+    sys.settrace(tracer)
+    try:
+        return ("ok", fn())
+    except _Hang:
         return ("hang", None)
-    return box["r"]
+    except ValueError as ex:
+        return ("ValueError", str(ex))
+    except Exception as ex:  # noqa: BLE001
+        return ("other-" + type(ex).__name__, str(ex))
+    finally:
+        sys.settrace(old)
 
 
 # ------------------------------------------------------------------------------------------------ extends
+PYVAL = {"a": "a", "b": 0, "c": ""}
+BACK = {repr(v): k for k, v in PYVAL.items()}
+
+
 def extends_cases(tier, seed):
     """every graph on names a, b, c (+ missing parent zz), keys k1 k2 (quick: sampled), all start nodes"""
     names = ["a", "b", "c"]
@@ -56,8 +71,10 @@ def extends_cases(tier, seed):
     for ea, eb, ec, ka, kb, kc, start, excl in grid:
         G = [{"name": n, "ext": e, "keys": [[k, n] for k in ks]} for n, e, ks in (("a", ea, ka), ("b", eb, kb), ("c", ec, kc))]
         whole = {}
+        # the values the entries carry are the entry names in the model; in the real settings some of them are FALSY values
+        # (0, empty string): an own or nearer value wins whatever its truth value
         for nd in G:
-            d = {k: v for k, v in nd["keys"]}
+            d = {k: PYVAL[v] for k, v in nd["keys"]}
             if nd["ext"]:
                 d["extends"] = nd["ext"]
             whole[nd["name"]] = d
@@ -65,7 +82,7 @@ def extends_cases(tier, seed):
         st, res = _call_with_timeout(lambda: json_extends(whole_json=whole, parent_name=start, target_json=whole[start], excludes_fields=list(excl)))
         case = {"c": "ext", "G": G, "start": start, "excl": excl, "st": "ok", "kv": [], "intact": json.dumps(whole, sort_keys=True) == before}
         if st == "ok":
-            case["kv"] = sorted([[k, v] for k, v in res.items() if k != "extends"])
+            case["kv"] = sorted([[k, BACK.get(repr(v), "?")] for k, v in res.items() if k != "extends"])
             if "extends" in res:
                 case["st"] = "other-extends-key-left"
         elif st == "ValueError":
@@ -150,7 +167,11 @@ def setup_cases(tier, seed):
                 warnings.simplefilter("ignore")
                 r = SequentialRunner(settings=cfg, prng=random.Random(i))
                 r.class_register(_A)
-                r._setup()
+                st, msg = _call_with_timeout(r._setup, limit=3_000_000)
+                if st == "hang":
+                    raise TimeoutError("setup does not terminate")
+                if st != "ok":
+                    raise ValueError(msg)
             sim = r.simulator
             for g in range(len(mdecls)):
                 ms = sim.markets_group_name2market.get("MG%d" % g, [])
@@ -172,7 +193,11 @@ def setup_cases(tier, seed):
                 warnings.simplefilter("ignore")
                 r2 = SequentialRunner(settings=cfg, prng=random.Random(i))
                 r2.class_register(_A)
-                r2._setup()
+                st, msg = _call_with_timeout(r2._setup, limit=3_000_000)
+                if st == "hang":
+                    raise TimeoutError("setup does not terminate")
+                if st != "ok":
+                    raise ValueError(msg)
             sim2 = r2.simulator
             for what, decls, groups, pre in (("markets", mdecls, sim2.markets_group_name2market, "MG"), ("agents", adecls, sim2.agents_group_name2agent, "AG")):
                 c2 = {"c": "setup", "what": what + "-second-use-of-settings", "decls": decls, "out": "ok", "ids": [], "names": []}
